@@ -101,7 +101,7 @@ _ATTR_K = ['k08_priority', 'k08_priority_new', 'k08_use_candidate', 'k08_ice_con
 PROPS['C19'] = {
     'level': 'proof',
     'vx': [{'unit': 'parse', 'functions': ['MessageType :: from_bytes', 'get_type', 'transaction_id', 'MessageHeader :: from_bytes', 'From<u128>']},
-           {'unit': 'builder', 'functions': ['MessageType :: write_into', "MessageBuilder<'a> :: write_into", 'from_class_method', 'MessageType :: class', 'MessageType :: method', 'MessageType :: has_class', 'to_bits', 'lemma_type_roundtrip', 'lemma_method_idem']}],
+           {'unit': 'builder', 'functions': ['MessageType :: write_into', "MessageBuilder<'a> :: write_into", 'from_class_method', 'MessageType :: class', 'MessageType :: method', 'MessageType :: has_class', 'MessageType :: is_response', 'MessageType :: has_method', 'MessageType :: to_bytes', 'MessageClass :: is_response', 'to_bits', 'lemma_type_roundtrip', 'lemma_method_idem', ':: is_response', ':: has_method', ':: transaction_id', ':: has_class']}],
     'kx': ['k19_class_method', 'k19_from_bytes_all', 'k19_tid_mask', 'k17_header_from_bytes', 'k_shim_u128', 'k03_build_small'],
     'bx': ['c19'],
     'rule': 'Kani complete harnesses (loop-free / fixed trip count over full-domain symbolic inputs) + Verus VCs of unit parse.',
